@@ -19,6 +19,9 @@ type Ctx struct {
 	L                       *load.Loaded
 	Start                   time.Time
 	Log                     func(format string, a ...interface{})
+	// SkipStepFeas keeps every extracted step path without asking the solvers
+	// whether it is feasible (an over-approximation of the step relation).
+	SkipStepFeas bool
 }
 
 func (c *Ctx) Load(patterns ...string) error {
